@@ -220,7 +220,14 @@ type trieOutcome struct {
 
 func checkTrieCases(f lib.Flags, res *lib.Result, drv *lib.Driver, cases []*TrieCase, family string) {
 	t0 := time.Now()
-	defer func() { res.HitN("ms:"+family, int(time.Since(t0).Milliseconds())) }()
+	defer func() {
+		res.HitN("ms:"+family, int(time.Since(t0).Milliseconds()))
+		// checkpoint: a panic inside a goroutine of the code under test (parallel hasher / collector)
+		// cannot be recovered and kills the process; what was found so far stays on disk
+		if f.Out != "" {
+			_ = res.Write(f.Out)
+		}
+	}()
 	outs := make([]*trieOutcome, len(cases))
 	parallel(cases, func(i int, c *TrieCase) {
 		o := &trieOutcome{c: c}
